@@ -73,7 +73,6 @@ class LitGet(LitBase):
             "$tree_content": lambda c0, a, r: z3.Or(z3.And(is_VRef(old_idx), r == ref(old_idx)),
                                                     z3.Not(z3.Select(alive0, r))),
             "$alive": lambda c0, a, r: z3.Not(z3.Select(alive0, r)),
-            "$kind": lambda c0, a, r: z3.Not(z3.Select(alive0, r)),
         }
 
     modifies = property(lambda self: self.modifies_spec)
